@@ -81,6 +81,21 @@ def check_state_for_iface(rep, prog, rule):
             rep.check(g == t, rule, 'state_for_iface|link', 'fresh record is not linked into the list head', node=fn, function=LOOKUP)
         else:
             rep.fail(rule, 'state_for_iface|ret', '%s returns %s' % (LOOKUP, short(t)), node=fn, function=LOOKUP)
+    # the lookup hands out existing records untouched: a store into one (recycling it for another interface, wiping it) loses
+    # what it owns (observation list, cached icon) and mixes two interfaces' state.  Re-linking (the `next` field) is list surgery.
+    nw = 0
+    for st, v in outs:
+        for e in st.trace:
+            if e[0] != 'weak-store' or e[1] != 'RECS':
+                continue
+            off, n = e[2], e[3]
+            if off is not None and next_off <= off and off + n <= next_off + W:
+                continue
+            nw += 1
+            rep.fail(rule, 'state_for_iface|writes-existing', '%s stores into an already existing interface record (bytes %s+%d): the record\'s observation list and cached '
+                     'icon are owned through it and its state belongs to another interface' % (LOOKUP, 'at a computed offset' if off is None else off, n), node=fn, function=LOOKUP)
+    if not nw:
+        rep.ok(rule, sample={'existing_records_written_by_lookup': 0})
     for k, n in kinds.items():
         if n == 0:
             rep.fail(rule, 'state_for_iface|paths|' + k, '%s has no "%s" outcome (lookup hit / allocation failure / fresh record expected)' % (LOOKUP, k),
